@@ -50,7 +50,7 @@ func (C01) New() any { return &C01Scenario{} }
 
 func (C01) Gen(t *tape.Tape, tier string) any {
 	sc := &C01Scenario{}
-	sc.Plan = GenWritePlan(t, gen.Shapes, 2000)
+	sc.Plan = GenWritePlan(t, append(append([]gen.Shape{}, gen.Shapes...), gen.ShapeDyn, gen.ShapeDyn, gen.ShapeDynMap, gen.ShapeGen, gen.ShapeGen, gen.ShapeGenMap), 2000)
 	sc.Pools = GenPoolPolicy(t)
 	sc.F = gen.GenFOpts(t)
 	sc.ReadPath = c01ReadPaths[t.Draw(len(c01ReadPaths))]
